@@ -106,9 +106,14 @@ func runNode3(c *fw.Ctx, idx int, n univ.SNode) {
 		}
 		c.Count("encodings_enumerated", st.Executions)
 	}
+	// a compatible target may also simply lack the field: the value is skipped and the sentinel must still be right
+	lacking := reflect.StructOf([]reflect.StructField{{Name: "Z", Type: reflect.TypeOf(int64(0)), Tag: `json:"z"`}})
 	for di, d := range ds {
 		rec := ref.DRecord(d, ref.DLong(sentinel))
 		for _, e := range encsOf[di] {
+			k++
+			fl := fileCase{schema: rs, datums: []ref.Datum{rec}, encoded: [][]byte{e.b}, comp: []int{1}, codec: "null", mode: k % filedrv.NumModes, encDesc: e.vec}
+			readAndCompare(c, fl, fl.bytes(), lacking, false, n.Chain+"|field-absent-from-target", true)
 			for ti, ft := range targets {
 				k++
 				f := fileCase{schema: rs, datums: []ref.Datum{rec}, encoded: [][]byte{e.b}, comp: []int{1}, codec: "null", mode: k % filedrv.NumModes, encDesc: e.vec}
